@@ -38,6 +38,7 @@ L  least squares: every pilot matrix with entries in {1,-1,j,0} of the small
    Nt <= Np <= 4, Nr 1..4, 2-D, 3-D with shared pilots, 3-D with per-realisation
    pilots, real and complex pilots.  Oracle: the H the observation was built from.
 """
+import hashlib
 import itertools
 import math
 
@@ -130,6 +131,85 @@ def designated_roots(nzc):
         if 1 <= u < nzc and u not in out:
             out.append(u)
     return out
+
+
+def _feed(h, v):
+    if isinstance(v, np.ndarray):
+        h.update(("nd%s%s" % (v.dtype, v.shape)).encode())
+        h.update(np.ascontiguousarray(v).tobytes())
+    elif isinstance(v, dict):
+        for k in sorted(v, key=repr):
+            h.update(repr(k).encode())
+            _feed(h, v[k])
+    elif isinstance(v, (list, tuple)):
+        for e in v:
+            _feed(h, e)
+    else:
+        h.update(repr(v).encode())
+
+
+def obj_digest(o):
+    """digest of EVERY attribute of an object (arrays by dtype, shape and bytes)"""
+    h = hashlib.sha1()
+    _feed(h, vars(o))
+    return h.hexdigest()
+
+
+_WATCH = []
+
+
+def _watch_list():
+    """(label, namespace dict, key) of every module-level / class-level DATA item of the code under test: every
+    numpy array, every non-empty dict of arrays, every plain number (root tables, prime table, n_sc_PRB, ...)"""
+    if not _WATCH:
+        import importlib
+        for name in ("reference_signals.zadoffchu", "reference_signals.root_sequence", "reference_signals.srs",
+                     "reference_signals.dmrs", "reference_signals.channel_estimation", "channel_estimation.estimators"):
+            mod = importlib.import_module("pyphysim." + name)
+            spaces = [(name, vars(mod))]
+            for cn, c in sorted(vars(mod).items()):
+                if isinstance(c, type) and getattr(c, "__module__", "") == mod.__name__:
+                    spaces.append((name + "." + cn, vars(c)))
+            for sn, space in spaces:
+                for k in sorted(space):
+                    v = space[k]
+                    if k.startswith("__"):
+                        continue
+                    if isinstance(v, np.ndarray) or (isinstance(v, (int, float, complex)) and not isinstance(v, bool)) or \
+                            (isinstance(v, dict) and v and all(isinstance(e, np.ndarray) for e in v.values())):
+                        _WATCH.append((sn + "." + k, space, k))
+    return _WATCH
+
+
+def data_tables_digest():
+    h = hashlib.sha1()
+    for label, space, k in _watch_list():
+        h.update(label.encode())
+        _feed(h, space.get(k))
+    return h.hexdigest()
+
+
+def must_raise(chk, sig, case, fn, watched, tables=False):
+    """an invalid call: it has to raise, and every watched object (and, with tables=True, the module data) must be
+    exactly as before; histories check the module data once at their end instead"""
+    before = [obj_digest(o) for o in watched]
+    tables0 = data_tables_digest() if tables else None
+    chk.count("eval_error_paths")
+    try:
+        fn()
+    except (KeyboardInterrupt, SystemExit, Broken):
+        raise
+    except Exception as e:       # noqa
+        chk.outcome("error_path", (sig[-1], type(e).__name__))
+    else:
+        chk.fail(tuple(sig) + ("no_exception",), case, observed="returned normally", expected="an exception")
+    after = [obj_digest(o) for o in watched]
+    if after != before:
+        i = [a != b for a, b in zip(after, before)].index(True)
+        chk.fail(tuple(sig) + ("object_changed_by_failed_call",), case,
+                 observed="%s differs after the failed call" % type(watched[i]).__name__, expected="unchanged")
+    if tables and data_tables_digest() != tables0:
+        chk.fail(tuple(sig) + ("module_data_changed_by_failed_call",), case)
 
 
 def shape_of(a):
@@ -310,6 +390,19 @@ def eval_zc(chk, case, tools):
     chk.nontriv(("zc", size, u))
     check_periodic(chk, x, nzc, case)
     check_cazac_base(chk, tools, np.ascontiguousarray(x[:nzc]), u, case, direct=True)
+    # other entry points give the very same numbers: explicit Nzc, Nzc only, the module level functions
+    from pyphysim.reference_signals.zadoffchu import calcBaseZC, get_extended_ZF
+    alts = [("RootSequence(size,Nzc)", RootSequence(root_index=u, size=size, Nzc=nzc).seq_array()),
+            ("get_extended_ZF(calcBaseZC)", get_extended_ZF(calcBaseZC(nzc, u), size))]
+    if nzc > 24:
+        alts.append(("RootSequence(Nzc).base", np.asarray(RootSequence(root_index=u, Nzc=nzc).seq_array())))
+    for name, a in alts:
+        a = np.asarray(a)
+        ref = x if a.size == size else x[:nzc]
+        chk.count("eval_entry_point_equalities")
+        if a.shape != ref.shape or a.tobytes() != np.ascontiguousarray(ref).tobytes():
+            chk.fail(("entry_points", "root_sequence", name), case, observed="differs from RootSequence(root, size)",
+                     expected="bit-identical", msg="max difference %.6g" % numerics.err(a, ref))
 
 
 def eval_table(chk, case):
@@ -322,8 +415,14 @@ def eval_table(chk, case):
         chk.fail(("root_sequence", "length"), case, observed=(shape_of(x), obj.size), expected=size)
         return
     check_amplitude(chk, x, case, "table_root")
+    if obj.index != u:
+        chk.fail(("root_sequence", "index"), case, observed=obj.index, expected=u)
+    # table sequences are QPSK points exp(j pi phi / 4), phi odd:  x^4 == -1
+    if np.max(np.abs(x ** 4 + 1)) > 64 * numerics.EPS:
+        chk.fail(("table_root", "not_qpsk_alphabet"), case, observed=float(np.max(np.abs(x ** 4 + 1))), expected=0)
     chk.count("excluded_table_sequence_not_zadoff_chu")
     chk.outcome("sequence_kind", "qpsk_table_%d" % size)
+    return x.tobytes()
 
 
 def eval_allroots(chk, case, tools):
@@ -423,6 +522,16 @@ def eval_shift(chk, case):
             if ue.normalized is not norm:
                 chk.fail(("user_sequence", kind, "normalized_flag"), dict(case, shift=s, cover=cc),
                          observed=ue.normalized, expected=norm)
+            if cc == "none" and not norm:
+                from pyphysim.reference_signals.dmrs import get_dmrs_seq
+                from pyphysim.reference_signals.srs import get_srs_seq
+                from pyphysim.reference_signals.zadoffchu import get_shifted_root_seq
+                for name, alt in (("get_%s_seq" % kind, (get_srs_seq if kind == "srs" else get_dmrs_seq)(root, s)),
+                                  ("get_shifted_root_seq", get_shifted_root_seq(root, s, D))):
+                    chk.count("eval_entry_point_equalities")
+                    if np.shape(alt) != a.shape or np.asarray(alt).tobytes() != a.tobytes():
+                        chk.fail(("entry_points", "user_sequence", kind, name), dict(case, shift=s),
+                                 observed="differs from the class", expected="bit-identical")
             if cc == "none":
                 plain[s] = a
                 # constant amplitude: |a| = 1 (or 1/sqrt(N) when normalised)
@@ -476,7 +585,9 @@ def eval_shift(chk, case):
 # E: CAZAC based estimators
 # ----------------------------------------------------------------------
 EST_KINDS = ("srs_comb", "srs_plain", "dmrs_plain", "array_comb",
-             "occ[1,1]_xd", "occ[1,1]_flat", "occ[1,-1]_xd", "occ[1,-1]_flat")
+             "occ[1,1]_xd", "occ[1,1]_flat", "occ[1,-1]_xd", "occ[1,-1]_flat",
+             "srs_comb3", "array_plain")
+EXTRA_KINDS = ("srs_comb3", "array_plain")     # other entry points: size_multiplier 3; raw DMRS array, multiplier 1
 
 
 def kind_info(kind):
@@ -489,6 +600,10 @@ def kind_info(kind):
         return "dmrs", 12, 1, "none", None, "plain"
     if kind == "array_comb":
         return "srs", 8, 2, "none", None, "comb"
+    if kind == "srs_comb3":
+        return "srs", 8, 3, "none", None, "comb"
+    if kind == "array_plain":
+        return "dmrs", 12, 1, "none", None, "plain"
     cc = kind[3:kind.index("]") + 1]
     return "dmrs", 12, 1, cc, kind.endswith("_xd"), "occ"
 
@@ -645,7 +760,7 @@ def make_estimator(kind, b):
                                                                CazacBasedWithOCCChannelEstimator)
     if b["occ"]:
         return CazacBasedWithOCCChannelEstimator(b["ue"])
-    if kind == "array_comb":
+    if kind.startswith("array"):
         return CazacBasedChannelEstimator(b["seq"], size_multiplier=b["mult"])
     return CazacBasedChannelEstimator(b["ue"], size_multiplier=b["mult"])
 
@@ -662,6 +777,8 @@ def est_context(case):
     if lay != "c":
         return "layout=" + lay
     g, gi = case.get("gain", 1.0), case.get("gain_i", 1.0)
+    if g == 0:
+        return "zero_channel"
     if g != gi:
         return "interferer_gain_differs"
     if g != 1.0:
@@ -749,7 +866,8 @@ def eval_est(chk, case, cache):
 # ----------------------------------------------------------------------
 SEQ_OPS = (("srs", 0, "none", True), ("srs", 0, "none", False), ("srs", 3, "none", True),
            ("dmrs", 0, "[1,-1]", True), ("dmrs", 5, "[1,1]", False), ("dmrs", 0, "none", True),
-           ("clobber",))
+           ("clobber",),
+           ("bad", "srs", 8), ("bad", "dmrs", -12), ("bad", "dmrs_cc_list", 1))
 
 
 def seq_histories(maxlen):
@@ -783,6 +901,7 @@ def eval_seq_history(chk, case):
     from pyphysim.reference_signals.root_sequence import RootSequence
     N, root, hist = case["N"], case["root"], case["history"]
     chk.count("eval_shared_root_histories")
+    tables0 = data_tables_digest()
     rs = RootSequence(root_index=root, size=N)
     root_before = np.array(rs.seq_array(), copy=True)
     fresh_root = np.asarray(RootSequence(root_index=root, size=N).seq_array())
@@ -792,7 +911,19 @@ def eval_seq_history(chk, case):
     for step, oi in enumerate(hist):
         op = SEQ_OPS[oi]
         at = dict(case, step=step)
-        if op[0] == "clobber":
+        if op[0] == "bad":
+            from pyphysim.reference_signals.dmrs import DmrsUeSequence
+            from pyphysim.reference_signals.srs import SrsUeSequence
+            if op[1] == "srs":
+                fn = lambda: SrsUeSequence(rs, op[2], normalize=True)
+            elif op[1] == "dmrs":
+                fn = lambda: DmrsUeSequence(rs, op[2], cover_code=shared_cc["[1,-1]"], normalize=True)
+            else:
+                fn = lambda: DmrsUeSequence(rs, op[2], cover_code=[1, -1])
+            must_raise(chk, ("error_path", "user_sequence", "%s_%s" % (op[1], op[2])), at, fn,
+                       [rs] + [ue for _, ue, _ in live])
+            chk.outcome("history_event", op)
+        elif op[0] == "clobber":
             for _, ue, _ in live:
                 a = ue.seq_array()
                 if a.flags.writeable:
@@ -833,10 +964,23 @@ def eval_seq_history(chk, case):
             if not np.array_equal(v, cc_snap[k]):
                 chk.fail(("shared_root_history", "cover_code_argument_changed"), at, observed=v, expected=cc_snap[k])
                 return
+    if data_tables_digest() != tables0:
+        chk.fail(("shared_root_history", "module_tables_changed"), case, msg="after %r" % ([SEQ_OPS[i] for i in hist],))
     chk.nontriv(("hseq", N, root, tuple(hist)))
 
 
-EST_EVENTS = 5
+EST_EVENTS = 7          # 0..4 valid estimations, 5 / 6 invalid calls (wrong length, wrong dimensions)
+
+
+def bad_received(N, kind, ei):
+    skind, D, mult, cc, xd, variant = kind_info(kind)
+    if ei == 5:                                   # one element too many
+        if variant == "occ":
+            return np.ones((2, N + 1), dtype=complex) if xd else np.ones(2 * N + 1, dtype=complex)
+        return np.ones(N + 1, dtype=complex)
+    if variant == "occ":                          # wrong cover-code dimension / odd flat length with two antennas
+        return np.ones((3, N), dtype=complex) if xd else np.ones((2, 2 * N + 1), dtype=complex)
+    return np.ones((2, 2, N), dtype=complex)      # three dimensions
 
 
 def est_event(N, D, ei):
@@ -866,6 +1010,27 @@ def eval_est_history(chk, case, cache):
     buffers, kept = {}, []
     ref_snapshot = None
     for step, ei in enumerate(hist):
+        if ei >= 5:
+            if est_obj is None:
+                L0, K0, rx0, i0 = est_event(N, D, 0)
+                b0 = build_obs({"N": N, "kind": kind, "normalize": norm, "shift": shift, "root": root, "L": L0, "rx": rx0,
+                                "interf": [], "fam": 1, "off_h": case["off_h"], "off_i": case["off_i"]}, cache)
+                est_obj = make_estimator(kind, b0)
+                ref_snapshot = np.array(est_obj.ue_ref_seq, copy=True)
+                ue_snapshot = np.array(b0["ue"].seq_array(), copy=True)
+                ue_obj, xd_flag, occ_flag = b0["ue"], b0["xd"], b0["occ"]
+            bad = bad_received(N, kind, ei)
+            bad_copy = bad.copy()
+            if occ_flag:
+                fn = lambda: est_obj.estimate_channel_freq_domain(bad, 1, extra_dimension=xd_flag)
+            else:
+                fn = lambda: est_obj.estimate_channel_freq_domain(bad, 1)
+            must_raise(chk, ("error_path", "cazac_estimator", variant, "wrong_length" if ei == 5 else "wrong_dimensions"),
+                       dict(case, step=step), fn, [est_obj, ue_obj])
+            if not np.array_equal(bad, bad_copy):
+                chk.fail(("error_path", "cazac_estimator", variant, "input_mutated"), dict(case, step=step))
+            chk.outcome("estimator_history_event", (ei, step))
+            continue
         L, K, rx, interf = est_event(N, D, ei)
         ec = {"part": "E", "N": N, "kind": kind, "normalize": norm, "shift": shift, "root": root, "L": L, "K": K,
               "rx": rx, "interf": [list(t) for t in interf], "fam": (37 * ei + 11 * step + N) % 977,
@@ -876,6 +1041,7 @@ def eval_est_history(chk, case, cache):
             est_obj = make_estimator(kind, b)
             ref_snapshot = np.array(est_obj.ue_ref_seq, copy=True)
             ue_snapshot = np.array(b["ue"].seq_array(), copy=True)
+            ue_obj, xd_flag, occ_flag = b["ue"], b["xd"], b["occ"]
         buf = buffers.get(b["obs"].shape)
         if buf is None:
             buf = buffers[b["obs"].shape] = np.empty_like(b["obs"])
@@ -940,7 +1106,7 @@ def est_unit(chk, unit, cache):
     occ = variant == "occ"
     off_h, off_i = common.seed_offset(TAG_H), common.seed_offset(TAG_I)
     Lmax = max(1, N // 8)
-    rxs = ["1d", 1, 2, 3, 4] if chk.tier == "thorough" else ["1d", 1, 2]
+    rxs = ["1d", 1, 2, 3, 4] if chk.tier == "thorough" else (["1d", 1, 2] if N < 96 else ["1d", 2])
     isets = interferer_sets(D, N, occ)
     win = N // D if N % D == 0 else None
     for L in range(1, Lmax + 1):
@@ -973,6 +1139,7 @@ def est_ctx_unit(chk, unit, cache):
     if what == "scale":
         ctxs = [{"gain": g, "gain_i": g} for g in (1e-12, 1e-6, 1e6, 1e12)]
         ctxs += [{"gain": 1e-3, "gain_i": 1.0}, {"gain": 1.0, "gain_i": 1e-3}, {"gain": 1e9, "gain_i": 1e12}]
+        ctxs += [{"gain": 0.0, "gain_i": 0.0}, {"gain": 0.0, "gain_i": 1.0}]     # a channel of all zeros
         rxs = ["1d", 2]
     else:
         ctxs = [{"layout": l} for l in EST_LAYOUTS]
@@ -1008,6 +1175,210 @@ def est_hist_unit(chk, unit, cache):
                     "root": root, "history": list(hist), "off_h": off_h, "off_i": off_i}
             with chk.guard(("cazac_estimator", variant, "history"), case):
                 eval_est_history(chk, case, cache)
+
+
+ROOT_POOL = (("ok", 12, None, 0), ("ok", 12, None, 29), ("ok", 24, None, 0), ("ok", 25, None, 1), ("ok", 29, None, 28),
+             ("ok", 30, None, 28), ("ok", 36, 29, 28), ("ok", None, 29, 28), ("ok", 48, None, 5), ("ok", 1200, None, 1192),
+             ("bad", 20, None, 1), ("bad", 30, 31, 1), ("bad", None, None, 1), ("bad", 29, None, 29), ("bad", 12, None, 30),
+             ("clobber_newest",))
+
+
+def make_root(spec):
+    from pyphysim.reference_signals.root_sequence import RootSequence
+    _, size, nzc, u = spec
+    kw = {}
+    if size is not None:
+        kw["size"] = size
+    if nzc is not None:
+        kw["Nzc"] = nzc
+    return RootSequence(root_index=u, **kw)
+
+
+def root_pool_unit(chk, unit):
+    """SEVERAL live RootSequence objects of different sizes (tables, equal base length, largest size) created in
+    every order, mixed with invalid constructions and with the caller overwriting a returned array: every new
+    object equals the lone reference taken at the start, live objects and the module's tables stay as they were"""
+    _, maxlen = unit
+    ref = {}
+    for spec in ROOT_POOL:
+        if spec[0] == "ok":
+            o = make_root(spec)
+            ref[spec] = (np.asarray(o.seq_array()).tobytes(), int(o.size), int(o.Nzc))
+    tables0 = data_tables_digest()
+    for n in range(1, maxlen + 1):
+        for hist in itertools.permutations(range(len(ROOT_POOL)), n):
+            if ROOT_POOL[hist[0]][0] == "clobber_newest":
+                continue
+            case = {"part": "HR", "history": list(hist)}
+            with chk.guard(("root_pool_history",), case):
+                eval_root_pool(chk, case, ref, tables0)
+
+
+def eval_root_pool(chk, case, ref=None, tables0=None):
+    hist = case["history"]
+    if ref is None:
+        ref = {}
+        for spec in ROOT_POOL:
+            if spec[0] == "ok":
+                o = make_root(spec)
+                ref[spec] = (np.asarray(o.seq_array()).tobytes(), int(o.size), int(o.Nzc))
+        tables0 = data_tables_digest()
+    chk.count("eval_root_pool_histories")
+    live = []
+    for step, i in enumerate(hist):
+        spec = ROOT_POOL[i]
+        at = dict(case, step=step)
+        if spec[0] == "ok":
+            o = make_root(spec)
+            got = (np.asarray(o.seq_array()).tobytes(), int(o.size), int(o.Nzc))
+            if got != ref[spec]:
+                chk.fail(("root_pool_history", "new_object_differs_from_lone_reference"), at,
+                         observed="size %d Nzc %d" % got[1:], expected="size %d Nzc %d, bit-identical" % ref[spec][1:],
+                         msg="RootSequence%r after %r" % (spec[1:], [ROOT_POOL[j] for j in hist[:step]]))
+            for o2, _ in live:
+                if np.shares_memory(o2.seq_array(), o.seq_array()):
+                    chk.fail(("root_pool_history", "two_objects_share_memory"), at)
+            live.append((o, obj_digest(o)))
+        elif spec[0] == "bad":
+            must_raise(chk, ("error_path", "root_sequence", "size=%s,Nzc=%s,root=%s" % spec[1:]), at,
+                       lambda: make_root(spec), [o for o, _ in live])
+        else:
+            if live:
+                o, _ = live.pop()
+                a = o.seq_array()
+                if a.flags.writeable:
+                    a[...] = 0.5j
+        chk.outcome("root_pool_event", spec)
+        for o, d in live:
+            if obj_digest(o) != d:
+                chk.fail(("root_pool_history", "live_object_changed"), at,
+                         msg="after %r" % ([ROOT_POOL[j] for j in hist[:step + 1]],))
+                return
+    if data_tables_digest() != tables0:
+        chk.fail(("root_pool_history", "module_tables_changed"), case, msg="after %r" % ([ROOT_POOL[j] for j in hist],))
+        return
+    chk.nontriv(("hroot", tuple(hist)))
+
+
+EST_POOL = ((48, "srs_comb", False, 2), (40, "srs_plain", True, 5), (36, "occ[1,-1]_flat", True, 7),
+            (48, "dmrs_plain", False, 0), (25, "array_comb", False, 3), (48, "srs_comb3", True, 2))
+EST_POOL_EVENTS = (0, 3)
+
+
+def est_pool_prepare(cache, off_h, off_i):
+    acts = []
+    for oi, (N, kind, norm, shift) in enumerate(EST_POOL):
+        D = kind_info(kind)[1]
+        for ei in EST_POOL_EVENTS:
+            L, K, rx, interf = est_event(N, D, ei)
+            ec = {"part": "E", "N": N, "kind": kind, "normalize": norm, "shift": shift, "root": est_root(N, "seed"),
+                  "L": L, "K": K, "rx": rx, "interf": [list(t) for t in interf], "fam": (53 * oi + 7 * ei) % 977,
+                  "off_h": off_h, "off_i": off_i}
+            b = build_obs(ec, cache)
+            lone = run_estimator(make_estimator(kind, b), b, b["obs"].copy(), K)
+            acts.append((oi, ec, b, K, lone.tobytes(), lone.shape))
+    return acts
+
+
+def eval_est_pool(chk, case, cache, acts=None):
+    """SEVERAL live estimators (lengths 25..48, all variants) used alternately; every result is bit-identical to the
+    result of a lone fresh estimator and (checked once per action) equal to the true response"""
+    hist = case["history"]
+    if acts is None:
+        acts = est_pool_prepare(cache, case["off_h"], case["off_i"])
+    chk.count("eval_estimator_pool_histories")
+    objs = {}
+    for oi, ec, b, K, _, _ in acts:
+        if oi not in objs:
+            objs[oi] = make_estimator(ec["kind"], b)
+    digs = {oi: obj_digest(o) for oi, o in objs.items()}
+    for step, ai in enumerate(hist):
+        oi, ec, b, K, lone, lone_shape = acts[ai]
+        est = run_estimator(objs[oi], b, b["obs"], K)
+        chk.count("eval_estimator_calls_on_reused_object")
+        if est.shape != lone_shape or est.tobytes() != lone:
+            chk.fail(("cazac_estimator", b["variant"], "pool", "differs_from_lone_estimator"), dict(case, step=step),
+                     expected="bit-identical", msg="estimator %r, after actions %r" % (EST_POOL[oi], hist[:step]))
+        for oj, o in objs.items():
+            if obj_digest(o) != digs[oj]:
+                chk.fail(("cazac_estimator", kind_info(EST_POOL[oj][1])[5], "pool", "live_estimator_changed"),
+                         dict(case, step=step), msg="estimator %r changed by a call on %r" % (EST_POOL[oj], EST_POOL[oi]))
+                return
+        chk.outcome("estimator_pool_action", (ai, step))
+    chk.nontriv(("hpool", tuple(hist)))
+
+
+def est_pool_unit(chk, unit, cache):
+    _, maxlen = unit
+    off_h, off_i = common.seed_offset(TAG_H), common.seed_offset(TAG_I)
+    acts = est_pool_prepare(cache, off_h, off_i)
+    tables0 = data_tables_digest()
+    for oi, ec, b, K, _, _ in acts:            # the lone results themselves are right
+        with chk.guard(("cazac_estimator", b["variant"]), ec):
+            eval_est(chk, ec, cache)
+    for n in range(1, maxlen + 1):
+        for hist in itertools.product(range(len(acts)), repeat=n):
+            case = {"part": "HP", "history": list(hist), "off_h": off_h, "off_i": off_i}
+            with chk.guard(("cazac_estimator", "pool"), case):
+                eval_est_pool(chk, case, cache, acts)
+    if data_tables_digest() != tables0:
+        chk.fail(("cazac_estimator", "pool", "module_tables_changed"), {"part": "HP", "history": []})
+
+
+def est_big_unit(chk, unit, cache):
+    """the largest size of the numerology: 1200 elements, base length 1193 (roots incl. 1192)"""
+    _, N, kind, norm, root = unit
+    skind, D, mult, cc, xd, variant = kind_info(kind)
+    off_h, off_i = common.seed_offset(TAG_H), common.seed_offset(TAG_I)
+    win = N // D
+    isets = interferer_sets(D, N, variant == "occ")
+    for shift in (0, D - 1):
+        for L in (1, 2, win // 2, win):
+            for ri, rx in enumerate(("1d", 2)):
+                for ii, interf in enumerate(isets):
+                    for klabel, K in k_values(L, N, D, bool(interf)):
+                        case = {"part": "E", "N": N, "kind": kind, "normalize": norm, "shift": shift, "root": root,
+                                "L": L, "K": K, "rx": rx, "interf": [list(t) for t in interf],
+                                "fam": (N * 131 + shift * 17 + L * 7 + ri * 3 + ii) % 977, "off_h": off_h, "off_i": off_i}
+                        with chk.guard(("cazac_estimator", variant), case):
+                            eval_est(chk, case, cache)
+                        chk.outcome("largest_size", (kind, norm, root))
+
+
+def ls_error_cases(Nt, Np, form):
+    """pilot matrices whose Gram matrix is EXACTLY singular in floating point"""
+    out = [("zero", np.zeros((Nt, Np), dtype=complex))]
+    if Nt == 2:
+        row = np.array([1, -1, 1j, 1][:Np], dtype=complex)
+        out.append(("equal_rows", np.stack([row, row])))
+    return out
+
+
+def eval_ls_error(chk, case):
+    from pyphysim.channel_estimation.estimators import compute_ls_estimation
+    Nt, Np, form, which = case["Nt"], case["Np"], case["form"], case["which"]
+    bad = dict(ls_error_cases(Nt, Np, form))[which]
+    good = families.generic(3, (Nt, Np), True, offset=case["off_s"], tag=TAG_LS_S)
+    H = families.generic(4, (2, Nt), True, offset=case["off_h"], tag=TAG_LS_H)
+    if form == "2d":
+        Yg, sg, Yb, sb = H @ good, good, H @ bad, bad
+    elif form == "3d_shared_pilots":
+        Yg, sg, Yb, sb = np.stack([H @ good] * 3), good, np.stack([H @ bad] * 3), bad
+    else:
+        Yg, sg = np.stack([H @ good] * 3), np.stack([good] * 3)
+        Yb, sb = np.stack([H @ good, H @ bad, H @ good]), np.stack([good, bad, good])   # the 2nd realisation is singular
+    first = np.asarray(compute_ls_estimation(Yg, sg))
+    Yc, sc = Yb.copy(), sb.copy()
+    must_raise(chk, ("error_path", "ls_estimation", form, "singular_" + which), case,
+               lambda: compute_ls_estimation(Yb, sb), [], tables=True)
+    if not (np.array_equal(Yb, Yc) and np.array_equal(sb, sc)):
+        chk.fail(("error_path", "ls_estimation", form, "input_mutated"), case)
+    again = np.asarray(compute_ls_estimation(Yg, sg))
+    if again.shape != first.shape or again.tobytes() != first.tobytes():
+        chk.fail(("error_path", "ls_estimation", form, "later_result_differs"), case)
+    # wrong shapes
+    must_raise(chk, ("error_path", "ls_estimation", form, "pilot_count_mismatch"), case,
+               lambda: compute_ls_estimation(Yg, np.ones(np.shape(sg)[:-1] + (Np + 1,), dtype=complex)), [])
 
 
 def seq_hist_unit(chk, unit):
@@ -1133,8 +1504,12 @@ def ls_ctx_unit(chk, unit):
     Nt, Np = shape
     off_s, off_h = common.seed_offset(TAG_LS_S), common.seed_offset(TAG_LS_H)
     ctxs = [{"pgain": pg, "hgain": hg} for pg in (1e-6, 1e6) for hg in (1e-12, 1.0, 1e12)]
-    ctxs += [{"pgain": 1.0, "hgain": hg} for hg in (1e-12, 1e12)]
+    ctxs += [{"pgain": 1.0, "hgain": hg} for hg in (1e-12, 1e12, 0.0)]
     ctxs += [{"layout": l} for l in LS_LAYOUTS]
+    for which, _ in ls_error_cases(Nt, Np, form):
+        case = {"part": "LE", "Nt": Nt, "Np": Np, "form": form, "which": which, "off_s": off_s, "off_h": off_h}
+        with chk.guard(("error_path", "ls_estimation", form), case):
+            eval_ls_error(chk, case)
     for pidx in range(S):
         for Nr in (1, 2, 3, 4):
             for ctx in ctxs:
@@ -1166,13 +1541,13 @@ def est_lengths(tier):
     """multiples of 24 plus lengths that are NOT multiples of 12 / 24: a prime square (25), a prime (31, no
     extension), multiples of only one of the two shift counts (36, 40, 60), 50, a power of two (64), ..."""
     if tier == "quick":
-        return [25, 31, 36, 40, 48, 50, 64, 72, 96, 144]
+        return [24, 25, 31, 36, 40, 48, 50, 64, 72, 96, 144]
     return [12, 24, 25, 31, 36, 40, 48, 50, 60, 64, 72, 96, 100, 120, 121, 128, 144, 192, 288]
 
 
 def est_root(N, which):
     if N <= 24:
-        return {"seed": int(common.seed_offset(TAG_H) * 30) % 30, "one": 1, "last": 29}[which]
+        return {"seed": int(common.seed_offset(TAG_H) * 30) % 30, "one": 1, "last": 29, "zero": 0}[which]
     nzc = largest_prime_le(N)
     return {"seed": seed_root(nzc), "one": 1, "last": nzc - 1}[which]
 
@@ -1208,10 +1583,16 @@ def all_units(tier):
         for kind in EST_KINDS:
             skind, D, mult, cc, xd, variant = kind_info(kind)
             for norm in (False, True):
-                if kind == "array_comb" and norm:
+                if kind.startswith("array") and norm:
+                    continue
+                if kind in EXTRA_KINDS and not thorough and N > 72:
                     continue
                 for shift in range(D):
-                    if not thorough or N > 192:
+                    if N <= 24:
+                        whichs = ("zero", "last") if not thorough else ("zero", "seed", "last")     # root index 0 is valid
+                    elif N == 25 and not thorough:
+                        whichs = ("seed", "one", "last")
+                    elif not thorough or N > 192:
                         whichs = ("seed",)
                     elif N > 96:
                         whichs = ("seed", "last")
@@ -1240,19 +1621,27 @@ def all_units(tier):
     for N in ([40, 48] if not thorough else [31, 36, 40, 48, 72]):
         for kind in EST_KINDS:
             for norm in (False, True):
-                if kind == "array_comb" and norm:
+                if kind.startswith("array") and norm:
                     continue
                 hx.append(("hist_est", N, kind, norm, est_root(N, "seed"), 3))
     for what in ("scale", "layout"):
         for N in ([40, 48] if not thorough else [36, 40, 48, 50, 96]):
             for kind in EST_KINDS:
                 for norm in (False, True):
-                    if kind == "array_comb" and norm:
+                    if kind.startswith("array") and norm:
                         continue
                     hx.append(("est_ctx", what, N, kind, norm, est_root(N, "seed")))
     for shape in LS_SHAPES:
         for form in ("2d", "3d_shared_pilots", "3d_per_realization"):
             hx.append(("ls_ctx", shape, form, 60 if thorough else 12))
+    hx.append(("root_pool", 3))
+    hx.append(("est_pool", 4 if thorough else 3))
+    big = [("srs_comb", False, "last")]
+    if thorough:
+        big += [("srs_comb", True, "seed"), ("dmrs_plain", True, "last"), ("occ[1,-1]_flat", True, "last"),
+                ("occ[1,1]_xd", False, "seed"), ("srs_comb3", False, "last"), ("array_plain", False, "last")]
+    for kind, norm, which in big:
+        hx.append(("est_big", MAX_SIZE, kind, norm, est_root(MAX_SIZE, which)))
     ls = ls + hx
     # simplest first inside every kind (the first stored counterexample of a signature is then a small one);
     # cost-sorted lists also balance under round-robin sharding
@@ -1276,10 +1665,15 @@ def run_unit(chk, unit, tools, cache):
                 with chk.guard(("zc_root",), case):
                     eval_zc(chk, case, tools)
     elif what == "table":
+        seen = {}
         for u in range(30):
             case = {"part": "Z", "size": unit[1], "root": u}
             with chk.guard(("table_root",), case):
-                eval_table(chk, case)
+                b = eval_table(chk, case)
+                if b is not None and b in seen:
+                    chk.fail(("table_root", "two_root_indexes_same_sequence"), case, observed=(seen[b], u),
+                             expected="30 distinct sequences", msg="root indexes %d and %d give the same sequence" % (seen[b], u))
+                seen.setdefault(b, u)
     elif what == "allroots":
         p = unit[1]
         des = set(designated_roots(p))
@@ -1334,6 +1728,12 @@ def run_unit(chk, unit, tools, cache):
         est_hist_unit(chk, unit, cache)
     elif what == "hist_seq":
         seq_hist_unit(chk, unit)
+    elif what == "root_pool":
+        root_pool_unit(chk, unit)
+    elif what == "est_pool":
+        est_pool_unit(chk, unit, cache)
+    elif what == "est_big":
+        est_big_unit(chk, unit, cache)
     else:
         raise Broken("unknown unit %r" % (unit,))
 
@@ -1394,7 +1794,11 @@ def main(chk: Check):
     chk.require_outcomes("shift_family", 6)
     chk.require_outcomes("estimator_context", 40)
     chk.require_outcomes("ls_context", 30)
-    chk.require_outcomes("history_event", 7)
+    chk.require_outcomes("history_event", 10)
+    chk.require_outcomes("error_path", 12)
+    chk.require_outcomes("root_pool_event", 16)
+    chk.require_outcomes("estimator_pool_action", 30)
+    chk.require_outcomes("largest_size", 1)
     chk.require_outcomes("estimator_history_event", 12)
 
 
@@ -1438,6 +1842,18 @@ def replay(case, chk: Check):
         pre = ("cazac_estimator", variant) + ((c["layout"],) if c.get("layout", "c") != "c" else ())
         with chk.guard(pre, c):
             eval_est(chk, c, cache)
+    elif part == "HR":
+        c = {"part": "HR", "history": list(case["history"])}
+        with chk.guard(("root_pool_history",), c):
+            eval_root_pool(chk, c)
+    elif part == "HP":
+        c = {k: case[k] for k in ("part", "history", "off_h", "off_i")}
+        with chk.guard(("cazac_estimator", "pool"), c):
+            eval_est_pool(chk, c, cache)
+    elif part == "LE":
+        c = {k: case[k] for k in ("part", "Nt", "Np", "form", "which", "off_s", "off_h")}
+        with chk.guard(("error_path", "ls_estimation", c["form"]), c):
+            eval_ls_error(chk, c)
     elif part == "HS":
         c = {k: case[k] for k in ("part", "N", "root", "history")}
         with chk.guard(("shared_root_history",), c):
